@@ -221,7 +221,8 @@ def norm_single(path, d):
 def probe_single(ctx, desc):
     cd, dd = desc["coef"], desc["driver"]
     m, d = cd["m"], cd["d"]
-    cls = dict(a=cd["kind"], coupled=False, m=m, d=d, stream="scripted" if desc.get("scripted") else "real")
+    cls = dict(a=cd["kind"], coupled=False, m=m, d=d, stream="scripted" if desc.get("scripted") else "real",
+               tenor_inside=bool("tenors" in cd and cd["tenors"][0] <= cd["maturity"]))
     probe = "c16.euler.single"
     driver = make_driver(dd)
     model = make_model(cd, driver)
@@ -313,7 +314,8 @@ def norm_pair(path, d):
 def probe_coupled(ctx, desc):
     cd, dd = desc["coef"], desc["driver"]
     m, d = cd["m"], cd["d"]
-    cls = dict(a=cd["kind"], coupled=True, m=m, d=d, stream="scripted" if desc.get("scripted") else "real")
+    cls = dict(a=cd["kind"], coupled=True, m=m, d=d, stream="scripted" if desc.get("scripted") else "real",
+               tenor_inside=bool("tenors" in cd and cd["tenors"][0] <= cd["maturity"]))
     probe = "c16.euler.coupled"
     driver = make_driver(dd)
     model = make_model(cd, driver)
@@ -509,7 +511,7 @@ def gen_coef(rng, d, coupled, kinds=None):
             e, be, ga = dy(rng, 2, -1, 1), dy(rng, 3, -1, 1), dy(rng, 3, -1, 1)
         return dict(kind=kind, m=m, d=d, C=C, D=D, e=e, beta=be, gamma=ga, x0=[dy(rng, 4, -2, 2) for _ in range(m)], maturity=maturity)
     m = rng.choice([2, 3, 5])
-    inside = rng.random() < 0.5
+    inside = rng.random() < (0.5 if kind == "libor" else 0.04)     # forward + tenor inside the horizon is known to raise
     first = maturity * rng.choice([0.25, 0.5]) if inside else maturity + rng.choice([0.5, 4.0])
     tenors = [first + 0.5 * k * (maturity if inside else 1.0) for k in range(m + 1)]
     sigma = [[rng.choice([0.5, 0.75, 1.0, 1.25, 1.5]) for _ in range(d)] for _ in range(m)]
@@ -564,8 +566,10 @@ def run(ctx):
                             coef=dict(kind="diag", m=1, d=1, x0=[1.5], maturity=1.0)))
     probe_single(ctx, dict(base, grid=dict(h=0.1, nb=5), driver=dict(dim=2, fams=["hem", "merton"], params=[{}, {}], copula="independent"),
                            coef=dict(kind="diag", m=2, d=2, x0=[1.0, 2.0], maturity=1.0)))
+    probe_single(ctx, dict(base, driver=dict(dim=1, fams=["hem"], params=[{}]),
+                           coef=dict(kind="forward", m=2, d=1, x0=[0.02, 0.03], tenors=[0.5, 1.0, 1.5], sigma=[[0.5], [0.8]], maturity=1.0)))
     single_kinds = ["const", "diag", "affine", "affine", "forward", "libor"]
-    for i in range(ctx.n(60, 600)):
+    for i in range(ctx.n(250, 3000)):
         desc = gen_case(rng, coupled=False, scripted=(i % 3 == 2), kinds=single_kinds)
         if desc["coef"]["kind"] == "diag" and desc["coef"]["m"] >= 2 and i > 10:
             continue                                   # known to raise (reproduced above); keep the budget for working cases
@@ -573,14 +577,14 @@ def run(ctx):
             desc["coef"]["kind"] = "forward"           # the Libor drift needs a dblquad per pair of margins: too slow here
         probe_single(ctx, desc)
     coupled_kinds = ["const", "affine", "affine", "forward", "libor"]
-    for i in range(ctx.n(50, 500)):
+    for i in range(ctx.n(200, 2400)):
         desc = gen_case(rng, coupled=True, scripted=(i % 3 == 2), kinds=coupled_kinds)
         if desc["coef"]["kind"] == "libor" and desc["driver"]["dim"] > 1:
             desc["coef"]["kind"] = "forward"
         probe_coupled(ctx, desc)
     probe_df(ctx, dict(model="factory", rates=[], tenors=[5, 6, 7, 8, 9, 10]))
     probe_df(ctx, dict(model="base", rates=[], tenors=[]))
-    for _ in range(ctx.n(60, 600)):
+    for _ in range(ctx.n(200, 2400)):
         probe_df(ctx, gen_df(rng))
 
 
